@@ -132,6 +132,77 @@ def expected_init_q(model):
   return q
 
 
+SET = {
+    'integrator': lambda mj, on: setattr(mj.opt, 'integrator', 1 if on else 0),
+    'cone': lambda mj, on: setattr(mj.opt, 'cone', 1 if on else 0),
+    'impratio': lambda mj, on: setattr(mj.opt, 'impratio', 2.0 if on else 1.0),
+    'wind': lambda mj, on: mj.opt.wind.__setitem__(slice(None), [1.0, 0, 0] if on else [0.0, 0, 0]),
+}
+
+
+def session(ctx):
+  """LoadSession.tla: every op sequence up to the depth bound replayed on ONE live system object (path walk, because
+  an implementation may carry hidden state between initialisations)."""
+  import importlib
+  import jax.numpy as jp
+  from brax.io import mjcf
+  feats = ['integrator', 'wind'] if ctx.quick else ['integrator', 'cone', 'wind', 'impratio']
+  depth = 3 if ctx.quick else 4
+  cfg = os.path.join(tlc.WORK, 'c14-session.cfg')
+  tlc.write_cfg(cfg, constants={'Features': '{' + ','.join(f'"{f}"' for f in feats) + '}',
+                                'Pipes': '{"generalized","spring","positional"}', 'MaxOps': depth},
+                invariants=['VerdictIsMemoryless'], constraints=['DepthBound'])
+  dot = os.path.join(tlc.WORK, 'c14-session.dot')
+  res = tlc.run('LoadSession', cfg, name='c14-session', dump_dot=dot, expect_ok=True, workers=2)
+  ctx.add_tlc(res, 'LoadSession.tla')
+  nodes, edges, inits = tlaval.parse_dot(dot)
+  succ = {}
+  for s, d, lab in edges:
+    if d in nodes:
+      succ.setdefault(s, []).append((d, lab))
+  xml = ('<mujoco><worldbody><body name="a" pos="0 0 1"><joint name="j" type="hinge" axis="0 1 0"/>'
+         '<geom name="g" type="sphere" size="0.1"/></body></worldbody></mujoco>')
+  pipes = {p: importlib.import_module(f'brax.{p}.pipeline') for p in PIPES}
+  npaths = [0]
+
+  def replay_path(path):
+    sys = mjcf.loads(xml)           # a fresh object per path; hidden state (if any) accumulates along the path
+    hist = []
+    for (d, lab) in path:
+      act, args = tlaval.parse_label(lab)
+      hist.append(lab)
+      if act in ('Set', 'Clear'):
+        SET[args[0]](sys.mj_model, act == 'Set')
+      else:
+        try:
+          pipes[args[0]].init(sys, sys.init_q, jp.zeros(sys.qd_size()))
+          got = 'accepted'
+        except Exception:  # pylint: disable=broad-except
+          got = 'rejected'
+        want = nodes[d]['out']
+        if got != want:
+          ctx.violation(f'after {hist}: init was {got}, the model {"uses " + str(sorted(nodes[d]["on"])) if nodes[d]["on"] else "is clean"} '
+                        f'so it must be {want}', {'history': hist, 'xml': xml},
+                        {'call': 'pipeline.init', 'predicate': 'session_' + want})
+          return
+    npaths[0] += 1
+    ctx.traces += 1
+    ctx.case(key=('session', tuple(hist)), nontrivial=any('Set' in h for h in hist) and any('Init' in h for h in hist),
+             sample={'session': hist} if npaths[0] == 40 else None)
+
+  def dfs(node, path):
+    nxt = succ.get(node, [])
+    if not nxt or len(path) >= depth:
+      if path and path[-1][1].startswith('InitPipe'):
+        replay_path(path)
+      return
+    for d, lab in nxt:
+      dfs(d, path + [(d, lab)])
+
+  dfs(inits[0], [])
+  ctx.extra['session_paths_replayed'] = npaths[0]
+
+
 def run(ctx):
   q = ctx.quick
   ctx.rule = ('TLC enumerates ModelSpace models (1-3 links quick, 1-4 thorough) with 0-3 actuators x {clean} + every '
@@ -142,14 +213,17 @@ def run(ctx):
   ctx.assumptions = ['documents the MuJoCo compiler itself refuses are excluded and counted (they never reach brax)',
                      'error messages are not compared', 'mixed solmix/priority only injected when the model has >= 2 geoms']
   os.makedirs(tlc.WORK, exist_ok=True)
-  cfg = os.path.join(tlc.WORK, 'c14.cfg')
-  tlc.write_cfg(cfg, constants={'Class': '"any"', 'MaxLinks': 3 if q else 4, 'NModels': 6 if q else 60},
-                invariants=['ModelWellFormed', 'StructureConsistent', 'DecisionTable'])
-  dump = os.path.join(tlc.WORK, 'c14')
-  res = tlc.run('MjcfLoad', cfg, name='c14', dump=dump, seed=ctx.seed + 14, expect_ok=True)
-  ctx.add_tlc(res, 'MjcfLoad.tla')
-  cases = [{'model': s['model'], 'acts': s['acts'], 'inj': s['inj'], 'expect': s['expect']}
-           for s in tlaval.parse_dump(dump + '.dump')]
+  cases = []
+  for label, maxl, nm, only_clean in [('c14', 3 if q else 4, 6 if q else 60, 'FALSE'),
+                                      ('c14-clean', 4, 40 if q else 600, 'TRUE')]:
+    cfg = os.path.join(tlc.WORK, f'{label}.cfg')
+    tlc.write_cfg(cfg, constants={'Class': '"any"', 'MaxLinks': maxl, 'NModels': nm, 'OnlyClean': only_clean},
+                  invariants=['ModelWellFormed', 'StructureConsistent', 'DecisionTable'])
+    dump = os.path.join(tlc.WORK, label)
+    res = tlc.run('MjcfLoad', cfg, name=label, dump=dump, seed=ctx.seed + 14, expect_ok=True)
+    ctx.add_tlc(res, f'MjcfLoad.tla {label}')
+    cases += [{'model': s['model'], 'acts': s['acts'], 'inj': s['inj'], 'expect': s['expect']}
+              for s in tlaval.parse_dump(dump + '.dump')]
   kinds = {}
   skipped = {}
   for case, r in par.run('harness.drivers.c14', 'eval_case', cases, x64=False):
@@ -192,6 +266,7 @@ def run(ctx):
         ctx.violation(f'loaded system disagrees with the source model on {diffs}: got {got}, expected {exp} init_q {iq}',
                       info, {'call': 'mjcf.loads', 'predicate': 'structure'})
   ctx.extra['cases_per_kind'] = kinds
+  session(ctx)
   ctx.extra['refused_by_reference_compiler'] = skipped
   missing = [k for k in ('integrator', 'cone', 'wind', 'impratio', 'ref', 'ball', 'solmix', 'priority', 'cylinder',
                          'anchors', 'free_stiffness', 'transmission', 'gaintype', 'none') if kinds.get(k, 0) == 0]
